@@ -473,22 +473,10 @@ Definition assemble_diff (m : mode) (old new : list token) (ops : list opcode) :
   let st := fold_left (assemble_op m old new) ops {| a_result := []; a_ins := []; a_del := [] |} in
   a_result (do_reconcile st).
 
-(* ''.join(diff).strip().replace('</li> ', '</li>') *)
-Fixpoint replace_li (fuel : nat) (s : str) : str :=
-  match fuel with
-  | O => s
-  | S fuel' =>
-      match drop_prefix (s2l "</li> ") s with
-      | Some r => s2l "</li>" ++ replace_li fuel' r
-      | None => match s with
-                | [] => []
-                | c :: s' => c :: replace_li fuel' s'
-                end
-      end
-  end.
+(* ''.join('</li>' if chunk == '</li> ' else chunk for chunk in diff).strip() *)
+Definition fix_li (chunk : str) : str := if str_eqb chunk (s2l "</li> ") then s2l "</li>" else chunk.
 
-Definition render_string (chunks : list str) : str :=
-  let joined := py_strip (List.concat chunks) in replace_li (S (List.length joined)) joined.
+Definition render_string (chunks : list str) : str := py_strip (List.concat (map fix_li chunks)).
 
 (* ---- _count_changes and _htmldiff ---- *)
 Definition count_tag (t : tag) (ops : list opcode) : nat :=
